@@ -65,8 +65,16 @@ def run(F, R, ctx):
                                             "definition on another thread waits forever")
     for nm in ("enumerate_stacks", "call_per_ctx"):
         fn = F.one(r"^steel::steel_vm::vm::\{impl Synchronizer\}::%s$" % nm)
-        ups = fn.call_blocks(r"Weak<T,A>\}::upgrade$") + fn.call_blocks(r"Weak<T>\}::upgrade$")
-        ok = bool(ups)
+        ups = [i for i, b in fn.calls() if re.search(r"Weak<T(,A)?>\}::upgrade$", b["callee"]) and any("AtomicCell" in t for t in b["targs"])]
+        loads = [i for i, b in fn.calls() if re.search(r"AtomicCell<T>\}::load$", b["callee"]) and any("SteelThread" in t for t in b["targs"])]
+        nexts = set(i for i, b in fn.calls() if re.search(r"::next$", b["callee"]))
+        ok = bool(ups) and bool(loads)
+        for l in loads:
+            fwd = fn.reachable_from(fn.succ(l), avoid=nexts)
+            cyc = {b for b in fwd if l in fn.reachable_from(fn.succ(b), avoid=nexts)} | ({l} if l in fwd else set())
+            # the liveness test of the awaited thread (upgrade of its weak context) is repeated on every spin
+            ok = ok and any(u in cyc for u in ups)
         R.inst("C16.c", "Synchronizer::%s / wait exits when the thread is gone" % nm, ok,
-               "Synchronizer::%s no longer re-checks Weak::upgrade of the other thread's context while waiting for it to "
-               "reach a safepoint: a thread that exits in the meantime is waited for forever" % nm, fn.loc(), sample=True)
+               "Synchronizer::%s does not re-check Weak::upgrade of the awaited thread's context inside its wait loop (the "
+               "upgrade is missing or hoisted out of the loop, which also pins the context alive): a thread that exits while "
+               "it is being waited for is waited for forever, with the heap lock held" % nm, fn.loc(), sample=True)
